@@ -20,10 +20,10 @@ def _fmt(atom):
     return "Type::%s(operand %d)" % atom
 
 
-def queryimpl_judge(unw, chk, pmap):
+def queryimpl_judge(unw, chk, pmap, resolve=None):
     """-> (obligations, violations[str]) for one row; raises boolpath.CannotDecide."""
-    up = boolpath.enumerate_paths(unw)
-    cp = boolpath.enumerate_paths(chk)
+    up = boolpath.enumerate_paths(unw, resolve=resolve)
+    cp = boolpath.enumerate_paths(chk, resolve=resolve)
     obligations = []
     for p in up:
         for kind, atom, pc, line in p.events:
@@ -41,6 +41,10 @@ def queryimpl_judge(unw, chk, pmap):
             if a.get(p.ret[1], p.ret[2]) != p.ret[2]:
                 continue        # the literal is false under the path's own assumptions: the path answers false
             a[p.ret[1]] = p.ret[2]
+        elif p.ret[0] == "implies":
+            if a.get(p.ret[1]) is False:
+                continue
+            a[p.ret[1]] = True
         accept.append(a)
     for atom, pc, line in obligations:
         for a in accept:
@@ -69,7 +73,7 @@ def run_queryimpl(ctx):
         if not res.anchor(unw is not None, unw_id) or not res.anchor(chk is not None, chk_id):
             continue
         try:
-            obligations, accept, bad = queryimpl_judge(unw, chk, pmap)
+            obligations, accept, bad = queryimpl_judge(unw, chk, pmap, resolve=lambda path: lib.body(path))
         except boolpath.CannotDecide as e:
             res.broken.append("cannot decide: %s" % e)
             continue
@@ -86,14 +90,14 @@ def run_queryimpl(ctx):
     # controls (fixture crate): a predicate that tests the wrong operand is reported, the correct twin is accepted
     fx = ctx.fixtures
     if fx is not None:
-        for cid, expect_bad in (("queryimpl::swapped_can_be_used", True), ("queryimpl::good_can_be_used", False), ("queryimpl::good_match_can_be_used", False), ("queryimpl::good_early_can_be_used", False)):
+        for cid, expect_bad in (("queryimpl::swapped_can_be_used", True), ("queryimpl::good_can_be_used", False), ("queryimpl::good_match_can_be_used", False), ("queryimpl::good_early_can_be_used", False), ("queryimpl::good_helper_can_be_used", False), ("queryimpl::good_some_and_can_be_used", False), ("queryimpl::swapped_helper_can_be_used", True)):
             c = fx.body(cid)
             u = fx.body("queryimpl::return_type")
             if c is None or u is None:
                 res.control(False, cid)
                 continue
             try:
-                _, _, bad = queryimpl_judge(u, c, {1: 1, 2: 2})
+                _, _, bad = queryimpl_judge(u, c, {1: 1, 2: 2}, resolve=lambda path: fx.body(path))
             except boolpath.CannotDecide:
                 bad = ["cannot decide"]
             res.control(bool(bad) == expect_bad, cid + (" is reported" if expect_bad else " accepted"))
@@ -105,46 +109,65 @@ ZIP_FUNCS = ["variable::r#type::Type::matches", "variable::r#type::Type::conjoin
 
 
 def _ziplen_sites(lib, fid):
-    """[(zip call, flat labels a, flat labels b, guarded: bool, note)] for the zips of (part of S, part of O) in fid"""
-    from .variance import Prov, flat, side
-    b = lib.body(fid)
-    pv = Prov(lib, b, {1: {"S"}, 2: {"O"}})
-    # length comparisons: binop Eq / Ne (or PartialEq calls) whose two operands are `len()` results of a pure-S and a pure-O value
-    lens = {}       # local -> flat labels, for locals written by a `len` call
-    for c in b.calls:
-        if c.callee.rsplit("::", 1)[-1] == "len" and c.args and c.dest and not c.dest.get("p"):
-            lens[c.dest["l"]] = frozenset(flat(pv.of_op(c.args[0])))
-    # copies of len results
-    for _ in range(3):
-        for _, s in b.assigns():
-            rv = s["rv"]
-            if rv["k"] == "use" and isinstance(rv["o"], dict) and rv["o"].get("l") in lens and not rv["o"].get("p") and not s["place"]["p"]:
-                lens.setdefault(s["place"]["l"], lens[rv["o"]["l"]])
-    compares = []   # (block, labels a, labels b)
-    for i, s in b.assigns():
-        rv = s["rv"]
-        if rv["k"] == "binop" and rv.get("op") in ("Eq", "Ne"):
-            la, lb = rv["a"].get("l") if isinstance(rv["a"], dict) else None, rv["b"].get("l") if isinstance(rv["b"], dict) else None
-            if la in lens and lb in lens:
-                compares.append((i, lens[la], lens[lb]))
+    """[(zip call, flat labels a, flat labels b, guarded: bool)] for the zips of (part of S, part of O) in fid, its closures and the
+    private helpers that belong to it"""
+    from .variance import analyse, flat, side
+    b0, _, _ = analyse(lib, fid)
+    provs = dict(analyse.last_provs)
     out = []
-    for c in b.calls:
-        if c.callee.rsplit("::", 1)[-1] != "zip" or len(c.args) != 2:
-            continue
-        A, B = pv.of_op(c.args[0]), pv.of_op(c.args[1])
-        sa, sb = side(A), side(B)
-        if {sa, sb} != {"S", "O"}:
-            continue        # not a pairing of the two operands' parts
-        fa, fb = frozenset(flat(A)), frozenset(flat(B))
-        guarded = False
-        for blk, x, y in compares:
+    compares_of = {}
+    zips = []
+    for pv in provs.values():
+        b = pv.b
+        # length comparisons: binop Eq / Ne whose two operands are `len()` results of a pure-S and a pure-O value
+        lens = {}       # local -> flat labels, for locals written by a `len` call
+        for c in b.calls:
+            if c.callee.rsplit("::", 1)[-1] == "len" and c.args and c.dest and not c.dest.get("p"):
+                lens[c.dest["l"]] = frozenset(flat(pv.of_op(c.args[0])))
+        for _ in range(3):
+            for _, s in b.assigns():
+                rv = s["rv"]
+                if rv["k"] == "use" and isinstance(rv["o"], dict) and rv["o"].get("l") in lens and not rv["o"].get("p") and not s["place"]["p"]:
+                    lens.setdefault(s["place"]["l"], lens[rv["o"]["l"]])
+        compares = []   # (block, labels a, labels b)
+        for i, s in b.assigns():
+            rv = s["rv"]
+            if rv["k"] == "binop" and rv.get("op") in ("Eq", "Ne"):
+                la, lb = rv["a"].get("l") if isinstance(rv["a"], dict) else None, rv["b"].get("l") if isinstance(rv["b"], dict) else None
+                if la in lens and lb in lens:
+                    compares.append((i, lens[la], lens[lb]))
+        compares_of[b.id] = compares
+        for c in b.calls:
+            if c.callee.rsplit("::", 1)[-1] != "zip" or len(c.args) != 2:
+                continue
+            A, B = pv.of_op(c.args[0]), pv.of_op(c.args[1])
+            sa, sb = side(A), side(B)
+            if {sa, sb} != {"S", "O"}:
+                continue        # not a pairing of the two operands' parts
+            zips.append((b, c, frozenset(flat(A)), frozenset(flat(B))))
+
+    def guarded_at(b, bb, fa, fb, depth=0):
+        for blk, x, y in compares_of.get(b.id, ()):
             if {x, y} != {fa, fb}:
                 continue
             # before the zip, or after it on every way out (the zipped list is not yet an answer)
-            if b.dominates(blk, c.bb) or not (set(b.return_blocks()) & set(b.reachable(c.bb, avoid=(blk,)))):
-                guarded = True
-        out.append((c, fa, fb, guarded))
-    return b, out
+            if b.dominates(blk, bb) or not (set(b.return_blocks()) & set(b.reachable(bb, avoid=(blk,)))):
+                return True
+        if depth < 2:
+            # the zip sits in a helper / closure: the comparison may guard the place it is called (or built) from
+            for q in provs.values():
+                for c in q.b.calls:
+                    if c.callee == b.id and guarded_at(q.b, c.bb, fa, fb, depth + 1):
+                        return True
+                if b.id.startswith(q.b.id + "::{closure#"):
+                    for i, st in q.b.assigns():
+                        if st["rv"]["k"] == "agg" and st["rv"].get("agg") == "closure" and st["rv"].get("closure") == b.id \
+                                and guarded_at(q.b, i, fa, fb, depth + 1):
+                            return True
+        return False
+    for b, c, fa, fb in zips:
+        out.append((c, fa, fb, guarded_at(b, c.bb, fa, fb)))
+    return b0, out
 
 
 def run_ziplen(ctx):
@@ -417,4 +440,120 @@ def run_parsescope(ctx):
     if not found:
         # creation and folding no longer meet in Code::parse (e.g. no immediate folding): nothing to confuse
         res.ok(key, b0.where(), "Code::parse does not fold what it just created")
+    return res
+
+
+# ----------------------------------------------------------------------------------------------------------------------
+RENDER_NODES = ["variable::Variable::string", "variable::Variable::debug", "variable::array::Array::string", "variable::r#mut::Mut::string"]
+CELL_NODE = "variable::r#mut::Mut::string"
+
+
+def _depth_increment(b, o, hops=0):
+    """how many constant +k the u8 operand `o` is away from the depth the function / closure received (None = not derived)"""
+    if not isinstance(o, dict) or o.get("l") is None or hops > 8:
+        return None
+    l = o["l"]
+    proj = o.get("p", [])
+    if l <= b.arg_count:
+        return 0 if b.locals[l]["ty"] == "u8" or proj else None      # the depth parameter, or a captured copy in the closure environment
+    if proj and any(p.get("k") == "field" for p in proj):
+        # (_x.0) of a checked addition
+        for _, k, d in b.def_sites(l):
+            if k == "assign" and d["rv"]["k"] == "binop" and d["rv"].get("op") in ("AddWithOverflow", "Add", "AddUnchecked"):
+                a, c = d["rv"]["a"], d["rv"]["b"]
+                if isinstance(c, dict) and c.get("k") == "const":
+                    base = _depth_increment(b, a, hops + 1)
+                    return None if base is None else base + int(c.get("bits", "0"))
+        return None
+    defs = b.def_sites(l)
+    if len(defs) != 1 or defs[0][1] != "assign":
+        return None
+    rv = defs[0][2]["rv"]
+    if rv["k"] == "use":
+        return _depth_increment(b, rv["o"], hops + 1)
+    if rv["k"] == "binop" and rv.get("op") in ("Add", "AddUnchecked", "AddWithOverflow") and isinstance(rv["b"], dict) and rv["b"].get("k") == "const":
+        base = _depth_increment(b, rv["a"], hops + 1)
+        return None if base is None else base + int(rv["b"].get("bits", "0"))
+    if rv["k"] in ("ref", "copyderef"):
+        return _depth_increment(b, dict(rv["place"]), hops + 1)
+    return None
+
+
+def run_depthstep(ctx):
+    res = RuleResult("R-DEPTHSTEP", "the elision budget of value rendering (`..` beyond a depth, there to stop cyclic cells) is spent one unit "
+                                    "per container level: around every cycle of the rendering call graph that does not pass a cell the "
+                                    "constant increments of the depth argument add up to at most 1, and the cut-off is not below the "
+                                    "reviewed 5 - otherwise arrays / tuples of ordinary nesting print as `[[[..]]]`, which is not a value "
+                                    "literal (increments read from the MIR of the renderers and their closures)")
+    from ..owners import for_crate
+    lib = ctx.facts.lib
+    own = for_crate(lib)
+    edges = []      # (from node, to node, increment, where)
+    for n in RENDER_NODES:
+        if not res.anchor(lib.body(n) is not None, n):
+            return res
+        for hb in own.members(n):
+            for c in hb.calls:
+                if c.callee not in RENDER_NODES:
+                    continue
+                u8 = [a for a in c.args if isinstance(a, dict) and a.get("l") is not None and hb.locals[a["l"]]["ty"] == "u8"]
+                if len(u8) != 1:
+                    res.broken.append("cannot decide: %s calls %s without a single u8 depth argument" % (hb.id, c.callee))
+                    continue
+                inc = _depth_increment(hb, u8[0])
+                if inc is None:
+                    res.broken.append("cannot decide: the depth handed from %s to %s is not the received depth plus a constant" % (hb.id, c.callee))
+                    continue
+                edges.append((n, c.callee, inc, hb.where(c.line)))
+    res.floor(len(edges), 6, "depth-passing calls between the renderers")
+    # simple cycles that avoid the cell renderer: DFS over the 3 remaining nodes
+    best = {}
+    nodes = [n for n in RENDER_NODES if n != CELL_NODE]
+
+    def dfs(start, cur, total, path, seen):
+        for a, bnode, inc, where in edges:
+            if a != cur or bnode == CELL_NODE:
+                continue
+            if bnode == start:
+                cyc = tuple(path + [(a, bnode, inc, where)])
+                if total + inc > best.get(start, (-1, None))[0]:
+                    best[start] = (total + inc, cyc)
+            elif bnode not in seen:
+                dfs(start, bnode, total + inc, path + [(a, bnode, inc, where)], seen | {bnode})
+    for n in nodes:
+        dfs(n, n, 0, [], {n})
+    worst = max(best.values(), key=lambda x: x[0]) if best else None
+    key = "depthstep:per-level"
+    if worst is None:
+        res.broken.append("anchor missing: no rendering cycle found (Variable::string -> ... -> Variable::string)")
+    elif worst[0] > 1:
+        res.bad(key, "one level of nesting spends %d units of the rendering depth budget (%s): values of ordinary nesting are cut off with "
+                     "`..` and their printed text no longer parses back" % (worst[0], " -> ".join("%s(+%d)" % (e[1].rsplit("::", 2)[-2] + "::" + e[1].rsplit("::", 1)[-1], e[2]) for e in worst[1])),
+                worst[1][0][3])
+    else:
+        res.ok(key, worst[1][0][3], "at most one unit per container level")
+    # every cycle through the cell renderer spends at least one unit (cyclic cells terminate)
+    cell_in = [e for e in edges if e[1] == CELL_NODE]
+    cell_out = [e for e in edges if e[0] == CELL_NODE]
+    key = "depthstep:cell-terminates"
+    if cell_in and cell_out:
+        if min(e[2] for e in cell_in) + min(e[2] for e in cell_out) >= 1:
+            res.ok(key, cell_in[0][3], "a cell level spends at least one unit")
+        else:
+            res.bad(key, "rendering a cell spends no depth: a cell that (indirectly) contains itself is rendered forever", cell_in[0][3])
+    # the cut-off
+    b = lib.body("variable::Variable::string")
+    cut = None
+    for _, s in b.assigns():
+        rv = s["rv"]
+        if rv["k"] == "binop" and rv.get("op") in ("Gt", "Ge") and isinstance(rv["b"], dict) and rv["b"].get("k") == "const" and rv["b"].get("ty") == "u8" \
+                and _depth_increment(b, rv["a"]) == 0:
+            cut = int(rv["b"]["bits"]) + (1 if rv["op"] == "Gt" else 0)      # first depth that is elided
+    key = "depthstep:cut-off"
+    if not res.anchor(cut is not None, "the `depth > N` test of Variable::string"):
+        return res
+    if cut < 6:
+        res.bad(key, "Variable::string elides from depth %d on (reviewed: 6): fewer than five container levels are printed in full" % cut, b.where())
+    else:
+        res.ok(key, b.where(), "elision starts at depth %d" % cut)
     return res
